@@ -225,6 +225,34 @@ def correspond(ctx):
                     ctx.case(('1d', name, arg, label), nontrivial=True)
                     if not eq(b, rb, label in LAYOUT):
                         report(f'1d:{name}:{arg}:{label}', f'{name}: {arg} passed as {label} changes the baseline', {'method': name, 'arg': arg, 'variant': label})
+        # per-point arguments handed to the wrapped method through an optimizer's method_kwargs, in other containers / layouts
+        if name in ('optimize_extended_range', 'custom_bc', 'collab_pls') and 'method_kwargs' in e['params']:
+            w = np.round(rng.uniform(0.2, 1, n) * 32) / 32
+            okw = dict(kw)
+            okw.setdefault('method', 'asls')
+            if name == 'optimize_extended_range':
+                okw.update(min_value=3, max_value=4)
+            d0o = np.array([y, y + 1]) if stack else y
+            try:
+                with np.errstate(all='ignore'):
+                    rbo, rpo = call1d(name, x, d0o, dict(okw, method_kwargs={'weights': w}))
+            except Exception:
+                rbo = None
+            if rbo is not None:
+                for label, wv in (('list', w.tolist()), ('column', w.reshape(-1, 1)), ('row', w.reshape(1, -1)), ('float32', w.astype(np.float32)),
+                                  ('strided', np.repeat(w, 2)[::2])):
+                    ctx.count('variant:method_kwargs-weights-' + label)
+                    meta = {'method': name, 'two_d': False, 'variant': 'method_kwargs-weights-' + label}
+                    try:
+                        with np.errstate(all='ignore'):
+                            b, p = call1d(name, x, d0o, dict(okw, method_kwargs={'weights': wv}))
+                    except Exception as ex:
+                        report(f'1d:{name}:method_kwargs:{label}:raises', f'{name} with weights passed as {label} inside method_kwargs raised {type(ex).__name__}: {ex} '
+                               f'(the (N,) array works)', meta)
+                        continue
+                    ctx.case(('1d', name, 'method_kwargs', label), nontrivial=True)
+                    if not eq(b, rbo, True):
+                        report(f'1d:{name}:method_kwargs:{label}', f'{name}: weights passed as {label} inside method_kwargs change the baseline', meta)
         # explicit output dtype, omitted x, name lookup, functional interface, positional data
         d0 = np.array([y, y + 1]) if stack else y
         with np.errstate(all='ignore'):
@@ -238,6 +266,15 @@ def correspond(ctx):
                 checks.append(('functional', lambda: call1d(name, x, d0, kw, iface='func', module=e['module']), rb, rp))
             if name != 'interp_pts':
                 checks.append(('functional-keyword-data', lambda: getattr(importlib.import_module('pybaselines.' + e['module']), name)(data=d0, x_data=x, **kw), rb, rp))
+            if name != 'interp_pts':
+                # the same equivalence when x is not sorted (rotated: the sorting permutation is not its own inverse)
+                for plabel, perm in (('rotated', np.roll(np.arange(n), n // 3)), ('shuffled', rng.permutation(n))):
+                    xu, du = x[perm], d0[..., perm]
+                    try:
+                        wb, wp = call1d(name, xu, du, kw)
+                    except Exception:
+                        continue
+                    checks.append((f'functional-{plabel}-x', lambda xu=xu, du=du: call1d(name, xu, du, kw, iface='func', module=e['module']), wb, wp))
             for label, fn, want, wantp in checks:
                 ctx.count('variant:' + label.split(':')[0])
                 try:
